@@ -573,6 +573,14 @@ def collision_variant(rng, doc: dict) -> dict | None:  # noqa: ANN001
     import copy
 
     d = copy.deepcopy(doc)
+    if d["inits"] and rng.random() < 0.3:
+        # a REACTION whose id is init_<k>: its kinetic-law function clashes with the initial assignment's function
+        new = f"init_{py_name(rng.choice(d['inits'])['sym'])}"
+        if new in set(doc_ids(d)):
+            return None
+        rng.choice(d["reactions"])["id"] = new
+        d["flavour"] = doc.get("flavour", "") + "+collision-rxn"
+        return d
     if not d["rules"]:
         return None
     victim = rng.choice(d["rules"])["var"]
